@@ -107,6 +107,7 @@ class Program:
         self.charset = "bk"
         self.n_includes = 0
         self.link_pos = None
+        self.many_files = 0
 
     def all_files(self):
         d = {f.path: f.text().encode("utf-8") for f in self.files}
@@ -306,8 +307,38 @@ class FileGen:
                 return e
         return self.lit(rng.choice([0, 1, 2, 3, 4, 7, 8, 10, 16, 100, 255, 256, 1000, rng.randint(0, 70000)]))
 
+    def _sum_product(self, allow_positional):
+        """(A + B [+ k]) * C and friends: a sum of several symbols combined with another symbol through
+        a non-linear operator (the distributive paths of the lazy arithmetic)."""
+        rng = self.rng
+        pool = [c for c in self.visible.values() if c.value is not None and (allow_positional or not c.positional)
+                and c.nonlinear < 26 and abs(c.value) < 4096]
+        if len(pool) < 3:
+            return None
+        derived = [c for c in pool if c.deps]      # defined through other symbols: can be pending all at once
+        a, b, c = rng.sample(derived if len(derived) >= 3 and rng.random() < 0.8 else pool, 3)
+        k = rng.randint(0, 5)
+        s_text = "%s %s %s" % (a.name, rng.choice("+-"), b.name)
+        s_val = a.value + b.value if " + " in s_text else a.value - b.value
+        if k and rng.random() < 0.5:
+            s_text += " + " + num(rng, k)
+            s_val += k
+        op = rng.choice(["*", "*", "*", "/", "%", "&", "|"])
+        left = rng.random() < 0.6
+        v = _apply(op, s_val, c.value) if left else _apply(op, c.value, s_val)
+        if v is None or abs(v) >= 2 ** 31:
+            return None
+        text = ("(%s) %s %s" % (s_text, op, c.name)) if left else ("%s %s (%s)" % (c.name, op, s_text))
+        deps = {a.name, b.name, c.name} | set(a.deps) | set(b.deps) | set(c.deps)
+        return Expr(text, v, deps, a.positional or b.positional or c.positional,
+                    max(a.nonlinear, b.nonlinear, c.nonlinear) + 1, atomic=False)
+
     def _binary(self, cls, depth, allow_positional):
         rng = self.rng
+        if rng.random() < self.p.get("sumprod", 0.12):
+            e = self._sum_product(allow_positional)
+            if e is not None:
+                return e
         a = self._operand(depth, allow_positional)
         b = self._operand(depth, allow_positional)
         op = rng.choice(["+", "-", "*", "/", "%", "<<", ">>", "_", "&", "^", "|", "!", "+", "-"])
@@ -536,6 +567,12 @@ class FileGen:
             self.need_even(out)
             n = rng.randint(1, 2)
             out.append(Stmt(".dword " + ", ".join(self.expr("big").text for _ in range(n)), "dword"))
+        elif k < 0.535 and self.addr_dep_ok(1):
+            # non-ASCII text: one byte per letter in bk/koi8-r/cp866, two in utf-8 -> parity unknown here
+            n = rng.randint(1, 6)
+            word = "".join(rng.choice("АБВГДЕЖЗИКЛМНОПРСТУФабвгдежзиклмн") for _ in range(n))
+            out.append(Stmt('%s "%s"' % (rng.choice([".ascii", ".asciz"]), word), "ascii-cyr"))
+            self.even = None
         elif k < 0.64:
             text, nbytes = self.ascii_stmt()
             out.append(Stmt(text, "ascii"))
@@ -744,6 +781,9 @@ class Gen:
                 prog.base = rng.randrange(1, 0o160000, 2)    # odd base
             else:
                 prog.base = rng.randrange(0, 0o177000, 2)
+        if rng.random() < self.p.get("many_files", 0.07):
+            prog.many_files = rng.randint(8, 14)
+            prog.features.add("many-files")
         prog.link_pos = None
         if prog.base is not None:
             prog.link_pos = rng.choice(["first", "first", "dot", "middle", "last"])
@@ -756,7 +796,7 @@ class Gen:
                 # address-dependent statements are cheap once the base is known up front
                 budget = [rng.choice([3, 6, 9, 11])]
             parity = self._fill_file(prog, gf, plan, i, imported_c, imported_l, is_first=(i == 0), depth=0,
-                                     even_in=parity, budget=budget)
+                                     even_in=parity, budget=budget, is_last_main=(i == n_main - 1))
             if gf.has_end:
                 pass
         self._add_outputs(prog)
@@ -821,7 +861,8 @@ class Gen:
         return {"fg": fg, "consts": consts, "labels": labels, "extern_labels": set()}
 
     # ---------------------------------------------------------------------------------
-    def _fill_file(self, prog, gf, plan, idx, imported_c, imported_l, is_first, depth, even_in=True, budget=None):
+    def _fill_file(self, prog, gf, plan, idx, imported_c, imported_l, is_first, depth, even_in=True, budget=None,
+                   is_last_main=True):
         rng = self.rng
         fg = plan["fg"]
         fg.budget = budget if budget is not None else [5]
@@ -876,6 +917,14 @@ class Gen:
                 fg.repeat_stmt(body)
             if depth < 3 and prog.n_includes < 5 and rng.random() < self.p["include"] / max(4, n / 3):
                 self._include(prog, gf, fg, body, idx, depth)
+            if prog.many_files and depth == 0 and prog.n_includes < prog.many_files and rng.random() < 0.5:
+                # "many files" programs: ten or more file instances, each include tiny
+                saved = self.p
+                self.p = dict(saved, n_stmts=(1, 4), n_consts=(0, 2), n_labels=(1, 2), include=0.0, insert=0.0, chain=0.0)
+                try:
+                    self._include(prog, gf, fg, body, idx, depth)
+                finally:
+                    self.p = saved
             if rng.random() < self.p["insert"] / max(4, n / 3):
                 self._insert(prog, gf, fg, body)
         while li < len(plan["labels"]):
@@ -921,7 +970,12 @@ class Gen:
             op = "==" if (c.extern and ext_style == "marks") else "="
             sp = rng.choice([" ", "", "  "])
             st = Stmt("%s%s%s%s%s" % (c.name, sp, op, sp, c.text), "const", {"name": c.name, "const": c})
-            body.insert(rng.randint(0, len(body)), st)
+            if c.deps and rng.random() < 0.4:
+                # constants derived from other constants tend to stand near the top, as in real programs;
+                # (a late delivery of what they depend on then leaves them all defined-but-pending)
+                body.insert(rng.randint(0, max(1, len(body) // 3)), st)
+            else:
+                body.insert(rng.randint(0, len(body)), st)
             gf.consts[c.name] = c
             if c.extern:
                 gf.externs.append(c.name)
@@ -950,6 +1004,13 @@ class Gen:
             else:
                 body.append(st)
             prog.features.add("link-" + prog.link_pos)
+        if depth == 0 and fg.skip_ok and not is_last_main and fg.addr_dep_ok() and rng.random() < 0.3:
+            # a linked file that ENDS with a location-counter skip (a buffer reserved at its end)
+            e = fg.expr("small", allow_positional=False)
+            body.append(Stmt(". = . + " + (e.text if e.atomic else angle(e.text)), "skip", {"deps": e.deps}))
+            fg.budget[0] -= 1
+            fg.flip(e.value)
+            prog.features.add("trailing-skip")
         if depth > 0 and rng.random() < 0.3:
             body.insert(0, Stmt(".once", "once"))     # harmless for a file that is included once
         if depth == 0 and rng.random() < self.p["end"]:
